@@ -8,11 +8,70 @@ package obfs
 // Salamander+Gecko stack.
 
 import (
+	"encoding/json"
 	"errors"
 	"net"
 	"testing"
 	"time"
 )
+
+// ---- model-comparison cases for the Gecko receiver ("gk"): a sequence of inner datagrams (source, bytes) is fed to a
+// real geckoPacketConn through a scripted inner conn; ReadFrom is called with a buffer of rbuf bytes until the script is
+// exhausted.  Reported: for every packet ReadFrom returned, the index of the datagram whose arrival completed it, its
+// source, its length and digest.  The driver compares with run_p of coq/model/C03_Gecko.v (the transcription with every
+// panic site and every make() explicit), which must not reach a Panic site and must keep every allocation in its cap.
+type c03GkPkt struct {
+	Src int      `json:"src"`
+	Hex string   `json:"hex"`
+	G   []uint64 `json:"g"` // optional tail: byte i = a*i+b mod 256, n bytes
+}
+
+type c03GkCase struct {
+	K    string     `json:"k"`
+	Rbuf int        `json:"rbuf"`
+	Pkts []c03GkPkt `json:"pkts"`
+}
+
+func c03GkRun(raw json.RawMessage, res map[string]any) {
+	var c c03GkCase
+	if err := json.Unmarshal(raw, &c); err != nil {
+		panic(err)
+	}
+	pc := &c03PC{}
+	for _, k := range c.Pkts {
+		b := vUnhex(k.Hex)
+		if len(k.G) == 3 {
+			b = append(b, vGenData(k.G[0], k.G[1], int(k.G[2]))...)
+		}
+		pc.in = append(pc.in, c03Pkt{data: c03Exact(b), from: &net.UDPAddr{IP: net.IPv4(10, 9, byte(k.Src>>8), byte(k.Src)), Port: 4000 + k.Src}})
+	}
+	total := len(pc.in)
+	outs := [][]uint64{}
+	ok, why := true, ""
+	panicked, msg := vCatch(func() {
+		g := newGeckoPacketConn(pc, 64, 1200)
+		defer g.Close()
+		for {
+			p := make([]byte, c.Rbuf)
+			n, addr, err := g.ReadFrom(p)
+			if err != nil {
+				return
+			}
+			if n > len(p) {
+				ok, why = false, "ReadFrom returned n > len(p)"
+				return
+			}
+			ua := addr.(*net.UDPAddr)
+			outs = append(outs, []uint64{uint64(total - len(pc.in) - 1), uint64(ua.Port - 4000), uint64(n), vDigest(p[:n])})
+		}
+	})
+	if panicked {
+		ok, why = false, "panic: "+msg
+		res["panic"] = true
+	}
+	res["outs"] = outs
+	res["ok"], res["why"] = ok, why
+}
 
 type c03Pkt struct {
 	data []byte
@@ -248,5 +307,11 @@ func init() {
 }
 
 func TestVerifC03(t *testing.T) {
-	c03Main(t, nil)
+	c03Main(t, func(kind string, raw json.RawMessage, res map[string]any) bool {
+		if kind != "gk" {
+			return false
+		}
+		c03GkRun(raw, res)
+		return true
+	})
 }
